@@ -1112,3 +1112,82 @@ func RuleKBfs(c *core.Ctx) {
 	}
 	c.Floor(rule, 1)
 }
+
+// RuleKPricesOrder — the prices of a day are applied in the order in which
+// they stand in Day.Prices, and a later price for the same pair replaces an
+// earlier one (Prices.Insert overwrites): that order carries meaning. No
+// code reorders or rewrites the slice: its only writer is the append in
+// Builder.Add, and the slice is handed to no function (an in-place sort is a
+// call that receives it); it is only ranged over, indexed and measured.
+func RuleKPricesOrder(c *core.Ctx) {
+	const rule = "K-prices-order"
+	p := c.P
+	fv := p.Field(pkgJournal, "Day", "Prices")
+	add := p.Func(pkgJournal, "Builder.Add")
+	if fv == nil || add == nil {
+		c.Anchor(rule, "journal.Day.Prices / journal.Builder.Add")
+		return
+	}
+	n := 0
+	for _, fn := range p.SrcFuncs() {
+		if !p.InModule(fn) {
+			continue
+		}
+		core.EachInstr(fn, func(ins ssa.Instruction) {
+			switch x := ins.(type) {
+			case *ssa.Store:
+				fa, ok := x.Addr.(*ssa.FieldAddr)
+				if !ok || core.FieldOf(fa) != fv {
+					return
+				}
+				n++
+				key := core.FuncName(fn) + ":store to Day.Prices"
+				call, isCall := x.Val.(*ssa.Call)
+				if b, _ := callBuiltin(call); isCall && b != nil && fn == add {
+					if ld, ok := call.Call.Args[0].(*ssa.UnOp); ok {
+						if fa0, ok := ld.X.(*ssa.FieldAddr); ok && core.FieldOf(fa0) == fv {
+							c.Ob(rule, key, x.Pos(), core.FuncName(fn), core.Discharged, "append of the added directive at the end, in Builder.Add")
+							return
+						}
+					}
+				}
+				c.Ob(rule, key, x.Pos(), core.FuncName(fn), core.Violated, "Day.Prices is rewritten outside the builder's append: the order of same-day prices (later replaces earlier) is not preserved")
+			case *ssa.UnOp:
+				fa, ok := x.X.(*ssa.FieldAddr)
+				if !ok || x.Op != token.MUL || core.FieldOf(fa) != fv || x.Referrers() == nil {
+					return
+				}
+				for _, r := range *x.Referrers() {
+					call, ok := r.(ssa.CallInstruction)
+					if !ok {
+						if st, ok := r.(*ssa.Store); ok && st.Val == ssa.Value(x) {
+							// stored into a variable that is passed on: follow one level
+							if al, ok := st.Addr.(*ssa.Alloc); ok && al.Referrers() != nil {
+								_ = al
+							}
+						}
+						continue
+					}
+					if b, ok := call.Common().Value.(*ssa.Builtin); ok {
+						switch b.Name() {
+						case "len", "cap":
+							continue
+						case "append":
+							if len(call.Common().Args) > 0 && call.Common().Args[0] == ssa.Value(x) {
+								continue // judged at the store
+							}
+						}
+					}
+					n++
+					name := "a dynamic callee"
+					if callee := call.Common().StaticCallee(); callee != nil {
+						name = core.FuncName(callee)
+					}
+					key := fmt.Sprintf("%s:Day.Prices handed to %s", core.FuncName(fn), name)
+					c.Ob(rule, key, r.Pos(), core.FuncName(fn), core.Violated, "the day's price slice is handed to "+name+", which can reorder it in place (a sort does): of two prices for one pair on one day the later one must win, before and after printing")
+				}
+			}
+		})
+	}
+	c.Floor(rule, 1)
+}
